@@ -37,7 +37,7 @@ fn main() {
         return;
     }
     // encoding / decoding
-    let addrs = ["", "a", "cosmwasm1fsgzj6t7udv8zhf6zj32mkqhcjcpv52yph5qsdcl0qt94jgdckqs2g053y", "with space", "quote\"inside", "back\\slash", "tab\there", "ünïcode"];
+    let addrs = ["", "a", "cosmwasm1fsgzj6t7udv8zhf6zj32mkqhcjcpv52yph5qsdcl0qt94jgdckqs2g053y", "with space", "quote\"inside", "back\\slash", "tab\there", "ünïcode", "COSMWASM1ABC", "MixedCase"];
     for a in addrs {
         let addr = Addr::unchecked(a);
         let owned: Remote<'_, Fix> = Remote::new(addr.clone());
